@@ -55,6 +55,17 @@ fn replay(path: &str) -> i32 {
             "C03.sweep" => c03::replay_sweep(case),
             #[cfg(feature = "nightly")]
             "C14.pm" | "C15.pm" | "C19.pm" => pm::replay(case),
+            c if c.ends_with(".harness") => {
+                println!("the recorded violation is a panic outside the harness's guards: re-running the whole check {}", prop);
+                std::process::exit(match std::panic::catch_unwind(|| dispatch(&[String::new(), prop.to_string()])) {
+                    Ok(code) => code,
+                    Err(_) => {
+                        println!("replay reproduces: panic outside guard");
+                        println!("VIOLATION property={} replay={}", prop, path);
+                        1
+                    }
+                });
+            }
             _ => {
                 println!("MACHINERY-ERROR unknown replay check '{}'", check);
                 std::process::exit(2);
@@ -86,6 +97,33 @@ fn main() {
         eprintln!("usage: mc <C01..C20> | replay <file>");
         std::process::exit(2);
     }
+    // A panic that escapes a check's own guards while it drives the crate is the subject
+    // misbehaving in a place the harness did not expect to fail: report it as a violation of the
+    // property being checked (exit 1 with a replay note) instead of dying with exit 101.
+    let is_check = args[1].len() == 3 && args[1].starts_with('C');
+    if is_check {
+        let a1 = args[1].clone();
+        let msg_slot: std::sync::Arc<std::sync::Mutex<Option<String>>> = Default::default();
+        let r = std::panic::catch_unwind(move || dispatch(&[String::new(), a1]));
+        match r {
+            Ok(code) => std::process::exit(code),
+            Err(e) => {
+                let msg = e.downcast_ref::<&str>().map(|s| s.to_string()).or_else(|| e.downcast_ref::<String>().cloned()).unwrap_or_else(|| "panic (non-string payload)".into());
+                let _ = msg_slot;
+                let prop = &args[1];
+                let f = core::Fail { check: format!("{}.harness", prop), signature: format!("{}/panic-outside-guard", prop), what: format!("the crate panicked in a call the harness does not expect to fail: {}", msg), case: serde_json::json!({"note": "re-run bin/check to reproduce"}) };
+                let path = core::write_replay(prop, &f);
+                println!("  violation [{}] {}", f.signature, f.what);
+                println!("VIOLATION property={} replay={}", prop, path.display());
+                std::process::exit(1);
+            }
+        }
+    }
+    let code = dispatch(&args);
+    std::process::exit(code);
+}
+
+fn dispatch(args: &[String]) -> i32 {
     let code = match args[1].as_str() {
         "replay" => replay(&args[2]),
         "C01" => c01::run(),
@@ -118,5 +156,5 @@ fn main() {
             2
         }
     };
-    std::process::exit(code);
+    code
 }
